@@ -698,8 +698,23 @@ def j_c18(sh, a, b):
         op = sh['ops'][i]
         if op in ('STR a', 'STR b', 'DUMP a', 'DUMP b', 'STR da', 'STR db', 'DUMP da', 'DUMP db'):
             out[op] = (i, sh['go'][i])
+    # the wire-decoded pair is a C18 pair only if it meets the property's hypothesis: decoded, and differing in nothing
+    # but the bytes of equally long credentials (a user name over 65 535 bytes, say, does not survive the wire)
+    rdp = {}
+    for i in range(a, b):
+        t = sh['ops'][i].split()
+        if len(t) == 3 and t[0] == 'RDP' and sh['go'][i].startswith('rdp '):
+            kv = dict(x.partition('=')[::2] for x in sh['go'][i][4:].partition(' ')[2].split(';'))
+            rdp[t[2]] = kv
+    decoded_pair_ok = False
+    if 'da' in rdp and 'db' in rdp:
+        ka, kb = rdp['da'], rdp['db']
+        decoded_pair_ok = set(ka) == set(kb) and all(
+            (len(ka[k]) == len(kb[k]) and len(ka[k]) > 1) if k in ('Username', 'Password') else ka[k] == kb[k] for k in ka)
     for tag in ('STR', 'DUMP'):
         for x, y, how in ((' a', ' b', 'API-built'), (' da', ' db', 'wire-decoded')):
+            if how == 'wire-decoded' and not decoded_pair_ok:
+                continue
             if tag + x in out and tag + y in out:
                 res['evals'] += 1
                 if out[tag + x][1] != out[tag + y][1]:
